@@ -233,6 +233,19 @@ func (vc *VC) box(x Term, t types.Type) Term {
 	fn := vc.boxFn(t)
 	bx := sx(fn, x)
 	vc.boxes[bx] = boxInfo{inner: x, t: t}
+	if strings.Contains(x, "?") {
+		// boxing under a binder: state the box facts once, universally
+		q := "?bx"
+		bq := sx(fn, q)
+		body := And(Eq(sx("typeOf", bq), vc.tyID(t)), Eq(sx(vc.unboxFn(t), bq), q))
+		if isPointerLike(t) {
+			body = And(body, Eq(sx("vnn", bq), Not(Eq(q, "nilref"))))
+		} else {
+			body = And(body, sx("vnn", bq))
+		}
+		vc.sc.Axiom(fmt.Sprintf("(forall ((?bx %s)) (! %s :pattern (%s)))", vc.sortOf(t), body, bq))
+		return bx
+	}
 	vc.sc.Axiom(Eq(sx("typeOf", bx), vc.tyID(t)))
 	vc.sc.Axiom(Eq(sx(vc.unboxFn(t), bx), x))
 	if isPointerLike(t) {
